@@ -40,6 +40,10 @@ def render_dt(d, R=None):
         if d["date"] is not None:
             if d["date"][0] == "ymd":
                 parts.append(f"{d['date'][1]}/{d['date'][2]:02d}/{d['date'][3]}")
+            elif d["date"][0] == "dow":
+                parts.append(DOW_NAMES[d["date"][1]][:3] if d.get("short") else DOW_NAMES[d["date"][1]])
+            elif d["date"][0] in ("today", "tomorrow"):
+                parts.append(d["date"][0])
             else:
                 parts.append(f"{d['date'][1]}/{d['date'][2]}")
         t = d["time"]
@@ -74,6 +78,9 @@ def render(spec):
             s += f", {render_dt(spec['end'])}"
         return s + ")"
     return "cron(" + " ".join(spec["fields"]) + ")"
+
+
+DOW_NAMES = ["sunday", "monday", "tuesday", "wednesday", "thursday", "friday", "saturday"]  # 0 = sunday, as in cron()
 
 
 def off_td(d):
@@ -120,13 +127,26 @@ def dt_on_date(d, date, startup, sun):
     return base + off_td(d)
 
 
-def dates_for(d, lo, hi):
-    """Dates the (possibly partial) date part denotes, between lo and hi."""
+def dates_for(d, lo, hi, rel=None, dow_first=False):
+    """Dates the (possibly partial) date part denotes, between lo and hi.  `rel` is the current date (what 'today' and
+    'tomorrow' refer to); dow_first = model variant of the open finding C06-dated-once-offset-carry (a weekday
+    denotes only such dates on or after the current date, so an instant that a positive offset carries from an earlier
+    weekday into today is not seen)."""
     if d["date"] is not None and d["date"][0] == "ymd":
         return [dt.date(d["date"][1], d["date"][2], d["date"][3])]
+    if d["date"] is not None and d["date"][0] in ("today", "tomorrow"):
+        return [rel + dt.timedelta(days=1 if d["date"][0] == "tomorrow" else 0)]
     out = []
     day = lo.date() - dt.timedelta(days=9)
     end = hi.date() + dt.timedelta(days=9)
+    if d["date"] is not None and d["date"][0] == "dow":
+        while day <= end:
+            if day.isoweekday() % 7 == d["date"][1]:
+                out.append(day)
+            day += dt.timedelta(days=1)
+        if dow_first:
+            out = [x for x in out if x >= rel]
+        return out
     while day <= end:
         if d["date"] is None or (day.month == d["date"][1] and day.day == d["date"][2]):
             out.append(day)
@@ -134,7 +154,7 @@ def dates_for(d, lo, hi):
     return out
 
 
-def instants(spec, lo, hi, startup, sun, cap=50, md_year=None):
+def instants(spec, lo, hi, startup, sun, cap=50, md_year=None, rel=None, dow_first=False):
     """Independent enumeration of the instants a specification denotes within [lo, hi] (sorted)."""
     out = set()
     if spec["kind"] == "once":
@@ -142,9 +162,9 @@ def instants(spec, lo, hi, startup, sun, cap=50, md_year=None):
         if d["time"][0] == "now":
             out.add(startup + off_td(d))
         else:
-            for date in dates_for(d, lo, hi):
-                if md_year is not None and d["date"] is not None and d["date"][0] == "md" and date.year != md_year:
-                    continue  # model variant of the open finding C06-once-yearly-no-rollover
+            for date in dates_for(d, lo, hi, rel=rel, dow_first=dow_first):
+                if md_year is not None and d["date"] is not None and d["date"][0] == "md" and date.year < md_year:
+                    continue  # model variant of the open finding C06-dated-once-offset-carry
                 t = dt_on_date(d, date, startup, sun)
                 if t is not None:
                     out.add(t)
@@ -246,10 +266,44 @@ def now_anchored(spec):
     return d is not None and d["time"][0] == "now"
 
 
-def expected_next(specs, now, startup, sun, horizon_days=1300, md_year=None):
+def two_probe(spec, now, startup, sun):
+    """Model variant of the open finding C06-dated-once-offset-carry: the date part (weekday or year-less M/D) is
+    resolved to its first occurrence on or after the current date, the offset is applied afterwards, and if that is
+    not after `now` one more occurrence is tried, counted from (now - first result) whole days + 1 later."""
+    d = spec["dt"]
+
+    def first_on_or_after(day, bump_year):
+        if d["date"][0] == "dow":
+            while day.isoweekday() % 7 != d["date"][1]:
+                day += dt.timedelta(days=1)
+            return day
+        year = now.year + (1 if bump_year else 0)
+        for _ in range(8):
+            try:
+                return dt.date(year, d["date"][1], d["date"][2])
+            except ValueError:
+                year += 1
+        return None
+
+    d0 = first_on_or_after(now.date(), False)
+    t0 = dt_on_date(d, d0, startup, sun) if d0 else None
+    if t0 is None:
+        return []
+    if t0 > now:
+        return [t0]
+    k = (now - t0).days + 1
+    d1 = first_on_or_after(now.date() + dt.timedelta(days=max(k, 0)), k > 0)
+    t1 = dt_on_date(d, d1, startup, sun) if d1 else None
+    return [t1] if t1 is not None and t1 > now else []
+
+
+def expected_next(specs, now, startup, sun, horizon_days=1600, md_year=None, dow_first=False):
     best = None
     for spec in specs:
-        ins = instants(spec, now, now + horizon_days * DAY, startup, sun, cap=3, md_year=md_year)
+        if dow_first and spec["kind"] == "once" and spec["dt"]["date"] is not None and spec["dt"]["date"][0] in ("dow", "md") and spec["dt"]["off"] is not None:
+            ins = two_probe(spec, now, startup, sun)
+        else:
+            ins = instants(spec, now, now + horizon_days * DAY, startup, sun, cap=3, rel=now.date())
         for t in ins:
             # the definition instant itself counts for now-anchored specifications ("startup" == once(now))
             incl = t == now and now == startup and now_anchored(spec) and (spec["kind"] == "once" or is_period_start(spec, t, startup, sun))
@@ -295,8 +349,13 @@ def gen_dt(R, now, force_date=None, allow_now=True):
     time = gen_time(R, allow_now=allow_now and force_date is None)
     if time[0] == "now":
         return {"date": None, "time": time, "off": R.choice([None, [60, "s"], [5, "min"], [1, "h"], [1, "day"], [-10, "s"], [0.1, "s"]]), "space": R.bool()}
-    kind = force_date or R.weighted([(4, "none"), (3, "ymd"), (2, "md")])
+    kind = force_date or R.weighted([(4, "none"), (3, "ymd"), (2, "md"), (2, "dow"), (1, "today"), (1, "tomorrow")])
     date = None
+    if kind == "dow":
+        # biased to the current weekday (the instant of today may already have passed) and its neighbours
+        date = ["dow", (now.isoweekday() + R.choice([0, 0, 0, 1, 6, 3])) % 7]
+    elif kind in ("today", "tomorrow"):
+        date = [kind]
     if kind == "ymd":
         day = now.date() + dt.timedelta(days=R.choice([-40, -2, -1, 0, 0, 1, 2, 30, 300]))
         date = ["ymd", day.year, day.month, day.day]
@@ -380,7 +439,7 @@ def gen_now(R, specs, startup, sun, anchor):
         day = R.choice(SPECIAL_DAYS)
         return dt.datetime(day.year, day.month, day.day) + R.choice([dt.timedelta(0), dt.timedelta(hours=1, minutes=59, seconds=59), dt.timedelta(hours=2), dt.timedelta(hours=12), DAY - US, dt.timedelta(hours=1, minutes=30)])
     if k == "boundary":
-        ins = instants(R.choice(specs), base, base + 40 * DAY, startup, sun, cap=20)
+        ins = instants(R.choice(specs), base, base + 40 * DAY, startup, sun, cap=20, rel=base.date())
         if ins:
             return R.choice(ins[:20]) + R.choice([-US, dt.timedelta(0), US])
     return base + dt.timedelta(microseconds=R.choice([0, 0, 1, 500000, 999999]))
@@ -410,7 +469,7 @@ class C06(ModelCheck):
     prop = PROP
     rule = (
         "(A) pure successor function: structured specifications (once / period with or without end / cron; dates full, "
-        "month/day or omitted; times h:m[:s[.f]], noon, midnight, sunrise, sunset, now; offsets s..w incl. fractional; "
+        "month/day, weekday name (full or 3 letters), today / tomorrow or omitted; times h:m[:s[.f]], noon, midnight, sunrise, sunset, now; offsets s..w incl. fractional; "
         "self-consistent daily periods only) rendered to text; current times in 2024-2025 biased to a denoted instant "
         "+/- 1 us, leap day, month/year ends and the US/Pacific transition days; lists of 1-3 specifications. Oracle: an "
         "independent calendar enumerator over the structure (own crontab matcher, sun times from the same astral "
@@ -422,7 +481,7 @@ class C06(ModelCheck):
         "specifications; distinct by (specifications, now)."
     )
     assumptions = [
-        "weekday / today / tomorrow dates are relative to the current date by construction and are covered by the oracle-free laws only",
+        "a weekday date denotes every date with that weekday (documentation: 'sunday sunset - 1.5 hour' = on Sundays); 'today' / 'tomorrow' are read relative to the current date of each evaluation, so the idempotence law is applied to them only within one day",
         "sun times are read from Home Assistant's astral location (the trusted source), truncated to whole seconds",
         "cron day-of-month/day-of-week: both restricted -> either matches (crontab rule)",
     ]
@@ -551,14 +610,15 @@ class C06(ModelCheck):
         except Exception as e:  # noqa: BLE001
             return (None, None), type(e).__name__ + ": " + str(e)[:80]
 
-    async def arun(self, case, md_year_variant=False):
+    async def arun(self, case, md_year_variant=False, dow_variant=False):
         sun = self._ctx["sun"]
         now = dt.datetime.fromisoformat(case["now"])
         startup = dt.datetime.fromisoformat(case["startup"])
         specs = case["specs"]
         texts = [render(s) for s in specs]
         mdy = now.year if md_year_variant else None
-        exp = expected_next(specs, now, startup, sun, md_year=mdy)
+        exp = expected_next(specs, now, startup, sun, md_year=mdy, dow_first=dow_variant)
+        rel_dates = any(sp["kind"] == "once" and sp["dt"]["date"] is not None and sp["dt"]["date"][0] in (("today", "tomorrow", "dow") if dow_variant else ("today", "tomorrow")) for sp in specs)
         (got, got_adj), err = await self.call(texts, now, startup)
         problems = []
         if err:
@@ -577,11 +637,13 @@ class C06(ModelCheck):
                     (g2, _), e2 = await self.call(texts, mid, startup)
                     if md_year_variant and mid.year != now.year:
                         pass  # under the variant the denoted set depends on the current year
+                    elif rel_dates and mid.date() != now.date():
+                        pass  # 'today' / 'tomorrow' (and, under the weekday variant, a weekday) refer to the current date
                     elif e2 or g2 != got:
                         problems.append("law:idempotence")
                 # no skip: successor of successor is the following oracle element
                 (g3, _), e3 = await self.call(texts, got, startup)
-                exp3 = expected_next(specs, got, startup, sun, md_year=(got.year if md_year_variant else None))
+                exp3 = expected_next(specs, got, startup, sun, md_year=(got.year if md_year_variant else None), dow_first=dow_variant)
                 if got == startup or in_gap(got):
                     pass
                 elif e3 or g3 != exp3:
@@ -604,7 +666,7 @@ class C06(ModelCheck):
                         problems.append("law:cron-real-elapsed")
         near = False
         for s in specs:
-            ins = instants(s, now - dt.timedelta(seconds=1), now + dt.timedelta(seconds=1), startup, sun)
+            ins = instants(s, now - dt.timedelta(seconds=1), now + dt.timedelta(seconds=1), startup, sun, rel=now.date())
             if any(abs((t - now).total_seconds()) <= 1e-6 for t in ins):
                 near = True
         special = now.date() in SPECIAL_DAYS
@@ -616,12 +678,16 @@ class C06(ModelCheck):
             "detail": {"texts": texts, "error": err},
         }
 
+    async def arun_full(self, case):
+        """arun plus, on a mismatch, the model variant of the open finding C06-dated-once-offset-carry."""
+        r = await self.arun(case)
+        if self.mismatch(r):
+            r["variant_carry_ok"] = not self.mismatch(await self.arun(case, md_year_variant=True, dow_variant=True))
+        return r
+
     async def acheck(self, res, case, klass):
         try:
-            r = await self.arun(case)
-            if self.mismatch(r):
-                r2 = await self.arun(case, md_year_variant=True)
-                r["variant_md_year_ok"] = not self.mismatch(r2)
+            r = await self.arun_full(case)
         except Exception:  # harness bug
             import traceback
 
@@ -644,7 +710,7 @@ class C06(ModelCheck):
             for i in range(len(case["specs"])):
                 c2 = dict(case)
                 c2["specs"] = [case["specs"][i]]
-                r2 = await self.arun(c2)
+                r2 = await self.arun_full(c2)
                 if self.mismatch(r2) and self.bucket(c2, r2) == b and not self.attribute(c2, r2):
                     case, r = c2, r2
                     break
@@ -660,11 +726,7 @@ class C06(ModelCheck):
                 if isinstance(loc, tuple):
                     loc = loc[0]
                 self._ctx = {"hass": hass, "sun": Sun(loc)}
-                r = await self.arun(case)
-                if self.mismatch(r):
-                    r2 = await self.arun(case, md_year_variant=True)
-                    r["variant_md_year_ok"] = not self.mismatch(r2)
-                return r
+                return await self.arun_full(case)
 
         return asyncio.run(go())
 
@@ -683,27 +745,48 @@ class C06(ModelCheck):
         return None
 
 
-def attr_yearly(case, r):
-    """once(M/D ...) after this year's date: the documentation says yearly, the successor function answers None.
-    Attributed only if the model variant 'M/D denotes this year's date only' explains the observation completely."""
-    if not any(sp["kind"] == "once" and sp["dt"]["date"] is not None and sp["dt"]["date"][0] == "md" for sp in case["specs"]):
-        return False
-    return bool(r.get("variant_md_year_ok"))
+def attr_carry(case, r):
+    """once() with a weekday or a year-less M/D date and an offset that moves the instant onto another day: the date is
+    resolved relative to the current date before the offset is applied, so an instant belonging to the previous (or, for
+    negative offsets, the next-but-one) occurrence of the date can be skipped.  Attributed only if the two-probe model
+    of that procedure (two_probe) explains the observation completely."""
+    def carries(sp):
+        d = sp.get("dt")
+        return sp["kind"] == "once" and d["date"] is not None and d["date"][0] in ("md", "dow") and d["off"] is not None
+    return any(carries(sp) for sp in case["specs"]) and bool(r.get("variant_carry_ok"))
 
 
 def attr_feb29(case, r):
+    """2/29 evaluated in a non-leap year raises ValueError: either the call itself, or the evaluations the laws make at
+    the successor (no-skip) and half-way to it (idempotence); each reported problem must fall in a non-leap year."""
     probs = r["observed"]["problems"]
-    if not probs or not (probs[0].startswith("exception:ValueError") or probs == ["law:no-skip"]):
+    if not probs or not (probs[0].startswith("exception:ValueError") or set(probs) <= {"law:no-skip", "law:idempotence"}):
         return False
-    now = dt.datetime.fromisoformat(case["now"])
-    leap = now.year % 4 == 0
-    if probs == ["law:no-skip"]:
-        got = r["observed"]["next"]
-        leap = got is None or dt.datetime.fromisoformat(got).year % 4 == 0
-    return (not leap) and any(
+    if not any(
         d is not None and d["date"] is not None and d["date"][0] == "md" and d["date"][1:] == [2, 29]
         for sp in case["specs"] for d in ([sp.get("dt")] if sp["kind"] == "once" else [sp.get("start"), sp.get("end")] if sp["kind"] == "period" else [])
-    )
+    ):
+        return False
+    now = dt.datetime.fromisoformat(case["now"])
+
+    def common(year):
+        return not (year % 4 == 0 and (year % 100 != 0 or year % 400 == 0))
+
+    if probs[0].startswith("exception:ValueError"):
+        return common(now.year)
+    got = r["observed"]["next"]
+    if got is None:
+        return False
+    got = dt.datetime.fromisoformat(got)
+    ok = True
+    if "law:no-skip" in probs:
+        ok = ok and common(got.year)
+    if "law:idempotence" in probs:
+        mid = out_of_gap(now + (got - now) / 2)
+        if not (now < mid < got):
+            mid = now + US
+        ok = ok and common(mid.year)
+    return ok
 
 
 # ------------------------------------------------------------------------------------------
@@ -715,6 +798,19 @@ def gen_loop_case(R):
     """Specifications whose instants fall within a short virtual horizon after the definition instant
     (virtual wall clock starts at 2024-06-12 10:00:00)."""
     specs = []
+    if R.bool(1, 6):
+        # recurrence of dated once() specifications: weekly over 15 days, yearly over 370 days (sparse, so cheap)
+        tm = R.choice([["hms", 10, 1, 0], ["hms", 9, 59, 0], ["noon"], ["midnight"], ["hms", 23, 30, 0.5]])
+        if R.bool():
+            specs.append({"kind": "once", "dt": {"date": ["dow", R.choice([3, 3, 4, 2, 0])], "time": tm, "off": None, "short": R.bool()}})
+            horizon = 15 * 86400
+        else:
+            specs.append({"kind": "once", "dt": {"date": ["md", 6, R.choice([12, 12, 13, 11])], "time": tm, "off": None}})
+            horizon = 370 * 86400
+        if R.bool(1, 3):
+            specs.append({"kind": "once", "dt": {"date": ["ymd", 2024, 6, R.choice([14, 20])], "time": ["hms", 8, 0, 0], "off": None}})
+        extra = R.choice([[], ["startup"], ["shutdown"]])
+        return {"specs": specs, "texts": [render(sp) for sp in specs] + extra, "horizon": horizon + 0.137, "legacy": R.bool(), "extra": extra}
     for _ in range(R.weighted([(4, 1), (2, 2), (1, 3)])):
         k = R.weighted([(3, "pnow"), (2, "onow"), (3, "cron"), (2, "once"), (2, "pdaily")])
         if k == "pnow":
@@ -766,7 +862,7 @@ async def exec_loop_case(case):
     hi = startup + dt.timedelta(seconds=case["horizon"])
     exp = set()
     for sp in case["specs"]:
-        for t in instants(sp, startup - dt.timedelta(milliseconds=5), hi, startup, sun, cap=100000):
+        for t in instants(sp, startup - dt.timedelta(milliseconds=5), hi, startup, sun, cap=100000, rel=startup.date()):
             if t > hi:
                 continue
             if t > startup + dt.timedelta(milliseconds=5) or now_anchored(sp):
@@ -846,7 +942,7 @@ async def exec_dst_case(case):
     return {"expected": expected, "observed": observed}
 
 
-ATTRIBUTORS = {"C06-once-yearly-no-rollover": attr_yearly, "C06-feb29-valueerror": attr_feb29}
+ATTRIBUTORS = {"C06-dated-once-offset-carry": attr_carry, "C06-feb29-valueerror": attr_feb29}
 CHECK = C06()
 
 
